@@ -820,7 +820,42 @@ fn eval_value_j<'tcx>(tcx: TyCtxt<'tcx>, did: DefId, args: GenericArgsRef<'tcx>)
 
 fn dump<'tcx>(tcx: TyCtxt<'tcx>, crate_name: &str) -> J {
     let mut bodies = Vec::new();
-    let configs = parse_configs();
+    let mut configs = parse_configs();
+    // add every well-formed concrete (BITS, LIMBS) pair that occurs in an impl header or alias
+    {
+        let items = tcx.hir_crate_items(());
+        let mut texts = Vec::new();
+        for ldid in items.definitions() {
+            let did = ldid.to_def_id();
+            match tcx.def_kind(did) {
+                DefKind::Impl { of_trait } => {
+                    texts.push(ty_str(tcx.type_of(did).instantiate_identity().skip_norm_wip()));
+                    if of_trait {
+                        let tr = tcx.impl_trait_ref(did).instantiate_identity().skip_norm_wip();
+                        texts.push(with_no_trimmed_paths!(format!("{}", tr)));
+                    }
+                }
+                DefKind::TyAlias => texts.push(ty_str(tcx.type_of(did).instantiate_identity().skip_norm_wip())),
+                _ => {}
+            }
+        }
+        for t in texts {
+            let mut rest = t.as_str();
+            while let Some(i) = rest.find("Uint<") {
+                rest = &rest[i + 5..];
+                let end = rest.find('>').unwrap_or(0);
+                let inner = &rest[..end];
+                let mut it = inner.split(',');
+                if let (Some(a), Some(b)) = (it.next(), it.next()) {
+                    if let (Ok(a), Ok(b)) = (a.trim().parse::<u64>(), b.trim().parse::<u64>()) {
+                        if b == (a + 63) / 64 && !configs.contains(&(a, b)) {
+                            configs.push((a, b));
+                        }
+                    }
+                }
+            }
+        }
+    }
     let mut keys_seen: std::collections::HashMap<String, u32> = Default::default();
 
     let mut uniq = |k: String| -> String {
